@@ -159,6 +159,8 @@ pub enum Target {
     Plain,
     OptionPlain,
     JsonNum,
+    /// Deserialize::deserialize_in_place into an existing value with another scale and sign
+    InPlace,
 }
 
 #[derive(Clone, Debug, Serialize, Deserialize, PartialEq)]
@@ -284,6 +286,10 @@ pub fn gen_numeral(rng: &mut Rng) -> String {
         }
         if rng.chance(1, 6) {
             s.push_str("00");
+            if rng.chance(1, 3) {
+                // leading zeros are legal in an exponent: make the field longer than any i64 needs
+                s.push_str(&"0".repeat(8 + rng.below(40) as usize));
+            }
         }
         if rng.chance(1, 16) {
             // exponents at the edge of the 64-bit scale range (and beyond)
